@@ -100,7 +100,7 @@ TObj ==
     /\ defrows' = IF Ev.tag = "def" THEN Ev.seqs ELSE defrows
     /\ Report(IF Ev.tag = "exp" /\ defrows # <<>> /\ Ev.seqs # defrows THEN {"C09:explicit-default-differs-from-default"} ELSE {})
 
-Skippable == {"Call", "Ret", "Ranked", "Sorted", "Dm", "KmNode", "KmSplit", "KmReduce", "KmKids", "KmDone", "Tree",
+Skippable == {"Call", "Ret", "Ranked", "Sorted", "Dm", "Anchors", "KmNode", "KmSplit", "KmReduce", "KmKids", "KmDone", "Tree",
               "HStep", "HSplit", "HFwd", "HBwd", "HMeet", "MergeBegin", "MergeEnd", "Final", "End", "Heap"}
 
 TSkip ==
